@@ -32,6 +32,9 @@ def heap_harness(name, ops, ln):
         elif op == "shrink":
             cur = 1
             lines.append("    x.resize(1, 0);")
+        elif op == "trim":
+            cur = cur - 2
+            lines.append("    x.resize(%d, 0);" % cur)
         elif op == "clone":
             lines.append("    let y = x.clone(); drop(y);")
         elif op == "lock":
@@ -56,9 +59,13 @@ def suites(tier, seed):
     src, hs = pmem.build_suite("C15", "c15", tier, seed, lens_quick=[3, 5], lens_thorough=[1, 3, 4, 5, 9],
                                depth_quick=2, depth_thorough=3, select=select)
     plain = [("hb",), ("hb", "grow"), ("hb", "shrink"), ("hb", "grow", "shrink"), ("hb", "clone"), ("hb", "grow", "clone"),
-             ("hb", "lock"), ("hb", "grow", "lock"), ("hb", "shrink", "lock", "ro"), ("hba",), ("hba", "clone"), ("hba", "lock", "ro")]
+             ("hb", "lock"), ("hb", "grow", "lock"), ("hb", "shrink", "lock", "ro"), ("hba",), ("hba", "clone"), ("hba", "lock", "ro"),
+             ("hb", "trim"), ("hb", "trim", "lock"), ("hb", "trim", "lock", "ro"), ("hb", "trim", "clone")]
     for ops in plain:
-        for ln in ([3, 5] if tier == "quick" else [1, 3, 4, 5, 9]):
+        # lengths: 9 and 11 give capacities that are not a multiple of 8 and, trimmed by 2, stay within the same page count
+        for ln in ([3, 5, 11] if tier == "quick" else [1, 3, 4, 5, 9, 10, 11]):
+            if "trim" in ops and ln < 9:
+                continue
             n = "c15_plain_%s_l%d" % ("_".join(ops), ln)
             src += heap_harness(n, ops, ln)
             hs.append(Harness(n, unwind=44, timeout=900, site="plain:" + "+".join(ops),
@@ -104,6 +111,9 @@ def plain_replay(v, scratch):
             lines.append("    x.resize(%d, 0x5a);" % ((cur // pmem.P) * 4096 + cur % pmem.P))
         elif op == "shrink":
             lines.append("    x.resize(1, 0);")
+        elif op == "trim":
+            cur = cur - 2
+            lines.append("    x.resize(%d, 0);" % ((cur // pmem.P) * 4096 + cur % pmem.P))
         elif op == "clone":
             lines.append("    let y = x.clone(); drop(y);")
         elif op == "lock":
